@@ -1,3 +1,183 @@
 import Babylon.Core.Proto
-/-! Line-protocol driver for property C06 (stub). -/
-def main : IO Unit := Babylon.Core.runLines (fun (s : Unit) _ => (s, "bad-op")) ()
+import Babylon.Arena.Model
+/-! Line-protocol driver for the monotonic buffer resource model (property C06).
+
+Two registers `A`, `B` (resources), two page allocators `0`, `1` and two upstream resources `0`, `1`.
+The allocators are the *environment* of the model; here they are the same deterministic placement
+policies the harness (`harness/c06.cpp`) implements on real memory, so that every address is the
+offset from the harness's arena base and both sides print identical lines.
+
+  zone size Z = 2^26; page allocator i lives in [(1+i)Z, (2+i)Z), upstream j in [(3+j)Z, (4+j)Z)
+  page allocator: policy 0 = ascending adjacent pages, 1 = descending adjacent, 2 = odd multiples
+                  of the page size (gaps); reuse = 1 keeps a LIFO free list of returned pages
+  upstream:       bump cursor, policy 0 = tight (next aligned address), 1 = additionally never more
+                  aligned than requested; zero-byte requests consume one byte
+-/
+open Babylon.Core Babylon.Arena
+
+def zone : Nat := 2 ^ 26
+
+structure PA where
+  ps : Nat := 256
+  policy : Nat := 0
+  reuse : Bool := false
+  fresh : Nat := 0
+  free : List Nat := []
+  deriving Inhabited
+
+def PA.freshAddr (p : PA) (i n : Nat) : Nat :=
+  let base := (1 + i) * zone
+  match p.policy with
+  | 0 => base + n * p.ps
+  | 1 => base + zone - (n + 1) * p.ps
+  | _ => base + (2 * n + 1) * p.ps
+
+/-- the next `k` pages the allocator would hand out, and the allocator after handing them out -/
+def PA.take (p : PA) (i : Nat) : Nat → PA × List Nat
+  | 0 => (p, [])
+  | k + 1 =>
+    let (p1, a) :=
+      match (if p.reuse then p.free else []) with
+      | x :: rest => ({ p with free := rest }, x)
+      | [] => ({ p with fresh := p.fresh + 1 }, p.freshAddr i p.fresh)
+    let (p2, l) := p1.take i k
+    (p2, a :: l)
+
+def PA.give (p : PA) (pages : List Nat) : PA :=
+  pages.foldl (fun q x => { q with free := x :: q.free }) p
+
+structure UP where
+  policy : Nat := 0
+  cursor : Nat := 64
+  deriving Inhabited
+
+def UP.alloc (u : UP) (j bytes align : Nat) : UP × Nat :=
+  let base := (3 + j) * zone
+  let al := if align = 0 then 1 else align
+  let a0 := alignUp (base + u.cursor) al
+  let a := if u.policy = 1 ∧ a0 % (2 * al) = 0 then a0 + al else a0
+  ({ u with cursor := a + (if bytes = 0 then 1 else bytes) - base }, a)
+
+structure St where
+  sys : Sys := ⟨Arena.fresh 0 256 0, Arena.fresh 1 256 1⟩
+  pa0 : PA := {}
+  pa1 : PA := {}
+  up0 : UP := {}
+  up1 : UP := {}
+
+def St.pa (s : St) (i : Nat) : PA := if i = 0 then s.pa0 else s.pa1
+def St.setPa (s : St) (i : Nat) (p : PA) : St := if i = 0 then { s with pa0 := p } else { s with pa1 := p }
+def St.upr (s : St) (j : Nat) : UP := if j = 0 then s.up0 else s.up1
+def St.setUp (s : St) (j : Nat) (u : UP) : St := if j = 0 then { s with up0 := u } else { s with up1 := u }
+
+def showEv : Ev → Option String
+  | .pageAlloc pa a => some s!"P+{pa}:{a}"
+  | .upAlloc up a b al => some s!"U+{up}:{a}:{b}:{al}"
+  | .dtor t => some s!"D{t}"
+  | .pageFree pa a => some s!"P-{pa}:{a}"
+  | .upFree up a b al => some s!"U-{up}:{a}:{b}:{al}"
+  | .write _ _ => none
+  | .read _ _ => none
+
+def showEvs (evs : List Ev) : String := " ".intercalate (evs.filterMap showEv)
+
+def showArena (a : Arena) : String :=
+  let pa := match a.pageArrs with | [] => "0:0" | x :: _ => s!"{x.addr}:{x.pages.length}"
+  let ov := match a.ovArrs with | [] => "0:0" | x :: _ => s!"{x.addr}:{x.ents.length}"
+  let dt := match a.dtArrs with | [] => "0:0" | x :: _ => s!"{x.addr}:{x.tasks.length}"
+  s!"fb={a.freeBegin} fe={a.freeEnd} used={a.spaceUsed} alloc={a.spaceAllocated} pa={pa} ov={ov} dt={dt}"
+
+/-- environment bookkeeping after an operation: commit the allocator calls / returns it made -/
+def St.commit (s : St) (evs : List Ev) : St :=
+  evs.foldl (fun s ev =>
+    match ev with
+    | .pageAlloc pa _ => s.setPa pa ((s.pa pa).take pa 1).1
+    | .pageFree pa a => s.setPa pa ((s.pa pa).give [a])
+    | .upAlloc up _ b al => s.setUp up ((s.upr up).alloc up b al).1
+    | _ => s) s
+
+def reg? (r : String) : Option Bool := if r == "A" then some false else if r == "B" then some true else none
+
+/-- answers the environment would give to the next operation of resource `x` -/
+def St.envFor (s : St) (x : Arena) (bytes align : Nat) : Env :=
+  let pg := ((s.pa x.pa).take x.pa 2).2
+  let up := match x.upRequest bytes align with
+    | some (b, al) => ((s.upr x.up).alloc x.up b al).2
+    | none => 0
+  ⟨pg.getD 0 0, pg.getD 1 0, up⟩
+
+def userBlocks (x : Arena) : List Block := (x.blocks.filter (·.kind == .user)).reverse
+
+def step (s : St) (line : String) : St × String :=
+  match words line with
+  | ["reset"] => ({}, "ok")
+  | ["pa", i, ps, pol, reuse] =>
+    match i.toNat?, ps.toNat?, pol.toNat?, reuse.toNat? with
+    | some i, some ps, some pol, some reuse => (s.setPa i { ps := ps, policy := pol, reuse := reuse != 0 }, "ok")
+    | _, _, _, _ => (s, "bad-op")
+  | ["up", j, pol] =>
+    match j.toNat?, pol.toNat? with
+    | some j, some pol => (s.setUp j { policy := pol }, "ok")
+    | _, _ => (s, "bad-op")
+  | ["new", r, i, j] =>
+    match reg? r, i.toNat?, j.toNat? with
+    | some r, some i, some j =>
+      let (sys, evs) := s.sys.step (.renew r i (s.pa i).ps j)
+      let s := { s with sys := sys }.commit evs
+      (s, s!"ok | {showArena (s.sys.get r)} | {showEvs evs}")
+    | _, _, _ => (s, "bad-op")
+  | ["move", a, b] =>
+    match reg? a, reg? b with
+    | some a, some b =>
+      let (sys, _) := s.sys.step (.move a b)
+      ({ s with sys := sys }, s!"ok | {showArena sys.a} | {showArena sys.b}")
+    | _, _ => (s, "bad-op")
+  | [r, "alloc", bytes, align] =>
+    match reg? r, bytes.toNat?, align.toNat? with
+    | some r, some bytes, some align =>
+      let x := s.sys.get r
+      let e := s.envFor x bytes align
+      let (x', p, evs) := x.allocate bytes align .user e
+      let s := { s with sys := s.sys.set r x' }.commit evs
+      (s, s!"ret={p} | {showArena x'} | {showEvs evs}")
+    | _, _, _ => (s, "bad-op")
+  | [r, "reg", tag] =>
+    match reg? r, tag.toNat? with
+    | some r, some tag =>
+      let x := s.sys.get r
+      let e := s.envFor x Babylon.Gen.Arena.sizeofDtArray Babylon.Gen.Arena.alignofDtArray
+      let (sys, evs) := s.sys.step (.on r (.reg tag e))
+      let s := { s with sys := sys }.commit evs
+      (s, s!"ok | {showArena (sys.get r)} | {showEvs evs}")
+    | _, _ => (s, "bad-op")
+  | [r, "release"] =>
+    match reg? r with
+    | some r =>
+      let (sys, evs) := s.sys.step (.on r .release)
+      let s := { s with sys := sys }.commit evs
+      (s, s!"ok | {showArena (sys.get r)} | {showEvs evs}")
+    | none => (s, "bad-op")
+  | [r, "contains", kind, k, off] =>
+    match reg? r, k.toNat?, parseInt? off with
+    | some r, some k, some off =>
+      let x := s.sys.get r
+      let base : Option Nat :=
+        if kind == "abs" then some k
+        else if kind == "fb" then some x.freeBegin
+        else if kind == "fe" then some x.freeEnd
+        else if kind == "b" then
+          let bs := userBlocks x
+          if bs.isEmpty then some 0 else (bs[k % bs.length]?).map (·.addr)
+        else if kind == "o" then   -- a block of the *other* register
+          let bs := userBlocks (s.sys.get (!r))
+          if bs.isEmpty then some 0 else (bs[k % bs.length]?).map (·.addr)
+        else none
+      match base with
+      | some b =>
+        let ptr := (b : Int) + off
+        if ptr < 0 then (s, "bad-op") else (s, s!"{x.contains ptr.toNat} | {showArena x} | ")
+      | none => (s, "bad-op")
+    | _, _, _ => (s, "bad-op")
+  | _ => (s, "bad-op")
+
+def main : IO Unit := runLines step ({} : St)
